@@ -120,9 +120,21 @@ def pretty_ok(out, v, is_int):
     return True, ok, "plain number between 1 and 1000 printed to 6 decimals / " + req
 
 
-def oracle(case, out):
+KNOWN_HIDDEN = "C18-dropExt-hidden-file-under-directory-drops-separator"
+
+
+def hidden_under_dir(raw):
+    """the class of the open finding: (after normalisation) the last component starts with its only/last dot
+    (name() is empty) and path() is not empty, e.g. "a/.x", "/.x", "a/b/.x" """
+    s = ref_norm(raw)
+    path, base, name, ext = ref_file(s)
+    return ext is not None and name == "" and path != ""
+
+
+def oracle(case, out, relax=False):
     """Evaluate the decomposition laws on the implementation's output line `out`.
-    Returns (ok, required) ; required describes what the property demands for this case."""
+    Returns (ok, required) ; required describes what the property demands for this case.
+    relax: leave out the recomposition laws through dropExt() (used to attribute a failure to the open finding)."""
     t = case.split()
     k = t[0]
     f = out.split(" ")
@@ -167,7 +179,12 @@ def oracle(case, out):
             path, base, name, ext = ref_file(s)
             got = [uh(x) for x in f[:6]]
             exp = [s, path, base, name, ext or "", ref_norm(path + name)]
-            ok = got == exp and len(f) == 6
+            ok = got == exp and len(f) == 7
+            # recomposition: dropExt().addExt("." + ext()) gives the file back
+            if ok and not relax:
+                ok = (f[6] == "~") if ext is None else (f[6] != "~" and uh(f[6]) == s)
+                if not ok:
+                    return ok, "dropExt().addExt('.'+ext()) == %r  (str=%r path=%r base=%r name=%r ext=%r)" % (s, s, path, base, name, ext)
             # the laws themselves, on the implementation's output
             ok = ok and got[1] + got[2] == got[0] and got[2] == got[3] + ("." + got[4] if ext is not None else "")
             return ok, "str=%r path=%r base=%r name=%r ext=%r dropExt=%r" % tuple(exp)
@@ -175,7 +192,10 @@ def oracle(case, out):
             s, e = ref_norm(uh(t[1])), uh(t[2])
             path, base, name, ext = ref_file(s)
             exp = [ref_norm(path + name + e), ref_norm(s + e)]
-            return [uh(x) for x in f] == exp, "setExt=%r addExt=%r" % tuple(exp)
+            ok = [uh(x) for x in f[:2]] == exp and len(f) == 3
+            if ok and not relax and uh(f[2]) != exp[0]:
+                return False, "setExt(e) == dropExt().addExt(e) == %r" % exp[0]
+            return ok, "setExt=%r addExt=%r" % tuple(exp)
         if k == "FP":
             a, b = ref_norm(uh(t[1])), ref_norm(uh(t[2]))
             r = b if a == "" else ref_norm(a + "/" + b)
@@ -255,6 +275,9 @@ def gen_cases(ctx):
     # --- FileName over {a,.,/} (+ backslash alphabet)
     adf = list(strings("a./", L))
     add("filename", ["FN %s" % hx(s) for s in adf])
+    hidden = ["a/.x", "a/b/.x", ".x", "/.x", "a/.x.y", "a/..x", "a\\.x", "a/.x/", "dir.d/.hidden", "a/.", "./.x"]
+    add("filename_hidden", ["FN %s" % hx(h) for h in hidden])
+    add("filename_hidden", ["FE %s %s" % (hx(h), hx(e)) for h in hidden for e in ("", ".y", "y")])
     bsl = list(strings("a./\\", 5))
     add("filename", ["FN %s" % hx(s) for s in bsl])
     shortf = list(strings("a./", 5))
@@ -444,13 +467,27 @@ def run(ctx):
                        "required": "no crash, no sanitizer report"}, found_input=n < len(cases))
     # ---- property oracle on the implementation's own output, every case
     bad = {}          # kind -> list of (case index)
+    known_hidden = []
     for i, (c, o) in enumerate(zip(cases, impl)):
         if o.startswith("<no output"):
             continue
         ok, req = oracle(c, o)
         if not ok:
-            bad.setdefault(c[:2], []).append(i)
+            if c[:2] in ("FN", "FE") and hidden_under_dir(uh(c.split()[1])) and oracle(c, o, relax=True)[0]:
+                known_hidden.append(i)       # exactly the class of the open finding, and only its law fails
+            else:
+                bad.setdefault(c[:2], []).append(i)
     ctx.cov["oracle_failures"] = {k: len(v) for k, v in bad.items()}
+    ctx.cov["known_finding_cases"] = {KNOWN_HIDDEN: len(known_hidden)}
+    if known_hidden:
+        i = min(known_hidden, key=lambda j: (len(cases[j]), j))
+        ok, req = oracle(cases[i], impl[i])
+        ctx.violation("FileName: dropExt() of a hidden file directly under a directory drops the path separator, so "
+                      "dropExt().addExt('.'+ext()) and dropExt().addExt(e) land in the parent directory (%d cases of exactly this class)"
+                      % len(known_hidden),
+                      {"case": show(cases[i]), "case_line": cases[i], "observed": impl[i], "observed_decoded": decode_out(cases[i], impl[i]),
+                       "required": req, "model": mlines[i], "failing_cases_of_kind": len(known_hidden)},
+                      signature=KNOWN_HIDDEN)
     ctx.cov["mismatches"] = len(mism)
     mis_idx = set(i for (i, _, _, _) in mism)
 
@@ -516,6 +553,6 @@ def decode_out(case, out):
             return "type=%r file=%r params=%r queries=%r" % (uh(f[0]), uh(f[1]), ps, f[3:])
         if k in ("AR", "RA"):
             return out
-        return " ".join(repr(uh(x)) if not x.startswith("!") else x for x in out.split(" "))
+        return " ".join(repr(uh(x)) if x[:1] not in ("!", "~") else x for x in out.split(" "))
     except Exception:
         return out
